@@ -61,7 +61,7 @@ type manager struct {
 	event        *event.System
 	attr         attribute.Getter
 	orderHandler *turnOrderHandler
-	gaugeCost    int64
+	gaugeCost    float64
 	activeTurn   bool
 	activeTarget key.TargetID
 	totalAV      float64
@@ -203,7 +203,7 @@ func (mgr *manager) ResetTurn() error {
 	}
 
 	mgr.activeTurn = false
-	mgr.orderHandler.turnOrder[0].gauge = BaseGauge * mgr.gaugeCost
+	mgr.orderHandler.turnOrder[0].gauge = int64(float64(BaseGauge) * mgr.gaugeCost)
 
 	// It would be more efficient to loop through mgr.order ourselves to determine this single target's placement instead of resorting the whole array when no other elements are changing.
 	// Unless we are also checking for other SPD changes that happened during the turn, in which case sort.Stable() is better to use, but only after we move the element to the end
